@@ -332,6 +332,7 @@ class Run:
         self.shared = {}           # id(real mutable module-level object) -> its one symbolic image in this path
         self.shared_names = {}     # id(symbolic image) -> global name
         self.heap_writes = []      # (target SV, what) for every dict/list mutation
+        self.native_overlay = {}   # id(real dict) -> {key: SV} writes to live dicts (never applied to the real object)
 
     def check(self, formula, label):
         """Record an obligation that must hold at this program point (loop/fold invariants)."""
@@ -616,6 +617,7 @@ class Run:
                 return
             v.attrs[name] = val
             self.ghost.setdefault("writes", []).append((v, name))
+            self.heap_writes.append((v, f"attr:{name}"))
             return
         if isinstance(v, VNative) and isinstance(v.obj, type):
             self.ghost.setdefault("writes", []).append((v, name))
@@ -1416,6 +1418,15 @@ class Run:
         return self.eval(s, env)
 
     def getitem(self, obj, idx):
+        if isinstance(obj, VNative) and type(obj.obj) is dict:
+            # a live (shared) dict, e.g. a module namespace: reads see this path's overlay first
+            k = conc(idx)
+            ov = self.native_overlay.get(id(obj.obj), {})
+            if k in ov:
+                return ov[k]
+            if k in obj.obj:
+                return lift(obj.obj[k])
+            raise PyRaise(VObj(KeyError, {"args": VTuple([idx])}))
         if isinstance(obj, VNative) and type(obj.obj).__module__ in ("typing", "types") and not isinstance(obj.obj, (dict, list, tuple)):
             return obj     # typing construct subscripted at run time (Callable[...], Tuple[...]): a type expression
         hit = self.find_attr(cls_of(obj), "__getitem__")
@@ -1426,6 +1437,11 @@ class Run:
         return self.call(self.bind_raw(hit[0], "__getitem__", hit[1], obj, cls_of(obj)), [idx])
 
     def setitem(self, obj, idx, v):
+        if isinstance(obj, VNative) and type(obj.obj) is dict:
+            # write to a live shared dict: recorded (frame obligations), kept in an overlay, never applied to the real object
+            self.heap_writes.append((obj, f"setitem:{conc(idx)!r}"))
+            self.native_overlay.setdefault(id(obj.obj), {})[conc(idx)] = v
+            return
         hit = self.find_attr(cls_of(obj), "__setitem__")
         if hit is None:
             self.throw(TypeError, f"'{cls_of(obj).__name__}' object does not support item assignment")
